@@ -164,9 +164,38 @@ def compile_properties(prop: str, timeout: int = 900) -> dict:
     return res
 
 
-def forbidden_scan() -> t.List[str]:
+IMPORT_RE = re.compile(r"(?:From\s+V\s+)?Require\s+(?:Import|Export)\s+([^.]*(?:\.[A-Za-z_][^.\s]*)*)\s*\.", re.S)
+
+
+def cone(root_rel: str) -> t.List[str]:
+    """The .v files of this development that `root_rel` (e.g. Properties/C09.v) depends on, transitively (by its Require lines)."""
+    seen: t.List[str] = []
+    todo = [root_rel]
+    while todo:
+        rel = todo.pop()
+        if rel in seen:
+            continue
+        path = os.path.join(COQ, rel)
+        if not os.path.exists(path):
+            continue
+        seen.append(rel)
+        src = re.sub(r"\(\*.*?\*\)", "", open(path).read(), flags=re.S)
+        for m in re.finditer(r"Require\s+(?:Import|Export)\s+(.*?)\.\s", src, re.S):
+            for tok in m.group(1).split():
+                tok = tok.strip()
+                if tok.startswith("V."):
+                    tok = tok[2:]
+                cand = tok.replace(".", "/") + ".v"
+                if os.path.exists(os.path.join(COQ, cand)):
+                    todo.append(cand)
+    return sorted(seen)
+
+
+def forbidden_scan(prop: t.Optional[str] = None) -> t.List[str]:
+    """Scans the dependency cone of Properties/<prop>.v (the whole development when prop is None)."""
     hits = []
-    for rel in coq_files():
+    files = cone(f"Properties/{prop}.v") if prop else coq_files()
+    for rel in files:
         path = os.path.join(COQ, rel)
         depth = 0
         in_comment = 0
@@ -230,7 +259,7 @@ def run_model(cases: t.Sequence[t.Tuple[str, str]], timeout: int = 900, shards: 
     if not cases:
         return []
     binp = modelrun_path(area)
-    shards = max(1, min(shards, len(cases) // 200 + 1))
+    shards = max(1, min(16, len(cases) // 4))  # cheap to start; some units are CPU-heavy per case
     chunks = [cases[i::shards] for i in range(shards)]
     procs = []
     for ch in chunks:
